@@ -272,7 +272,7 @@ let abortive : int list ref = ref []
 let parse_e2e (o : string) : e2e_op =
   let rest = String.sub o 1 (String.length o - 1) in
   match o.[0] with
-  | 'c' | 'A' | 'X' -> XConnect (nat_of_int (int_of_string rest))   (* X: and the service of that listener fails its readiness check *)
+  | 'c' | 'A' | 'X' | 'Y' -> XConnect (nat_of_int (int_of_string rest))   (* X: and the service of that listener fails its readiness check *)
   | 'f' | 'F' -> XFinish (n_of_int (int_of_string rest))
   | 'P' -> XPause
   | 'R' -> XResume
@@ -428,7 +428,9 @@ let bldgen (line : string) : string =
     (* a readiness failure (restart of one service on the worker that takes the connection): where the connection is dispatched at
        once (so that worker asks its services now), on a listener that has a builder call of its own *)
     let own_call tok = List.length (List.filter (fun t -> call_of (nat_of_int t) = call_of (nat_of_int tok)) (List.init nl (fun i -> i))) = 1 in
-    if has 'x' && not !blocked && not backoff && not st.paused && available st.av
+    (* not as the first operation: right after start-up the workers are still making their initial readiness checks, and the armed
+       failure would strike whichever worker asks first, not the one that takes the connection *)
+    if has 'x' && snd !acc > 0 && not !blocked && not backoff && not st.paused && available st.av
        && List.for_all (fun ls -> ls.l_backlog = []) st.lsts
        && List.for_all (fun g -> match nth_error st.ws (nat_of_int g) with Some wk -> wk.w_open | None -> false) (List.map int_of_nat st.handles)
        && List.exists own_call (List.init nl (fun i -> i)) then add 2 `X;
@@ -441,7 +443,8 @@ let bldgen (line : string) : string =
      | `C -> emit (Printf.sprintf "c%d" (rand nl))
      | `A -> emit (Printf.sprintf "A%d" (rand nl))
      | `Block -> emit "B" | `Unblock -> (armed := false; emit "b")
-     | `X -> let toks = List.filter own_call (List.init nl (fun i -> i)) in emit (Printf.sprintf "X%d" (pick_from toks))
+     | `X -> let toks = List.filter own_call (List.init nl (fun i -> i)) in
+       emit (Printf.sprintf "%s%d" (if rand 3 = 0 then "Y" else "X") (pick_from toks))
      | `Arm -> let toks = List.filter own_call (List.init nl (fun i -> i)) in armed := true; emit (Printf.sprintf "x%d" (pick_from toks))
      | `F -> emit (Printf.sprintf "f%d" (pick_from picked))
      | `P -> emit "P" | `R -> emit "R"
